@@ -267,7 +267,7 @@ func buildWorld(m *meshCase) (w *world, fail string) {
 				ServicePort: port,
 				Endpoint: &model.IstioEndpoint{
 					Addresses:       []string{e.IP},
-					EndpointPort:    uint32(port.Port),
+					EndpointPort:    epPort(e, port.Port),
 					ServicePortName: port.Name,
 					Labels:          e.Labels,
 					Locality:        model.Locality{Label: e.Locality},
@@ -295,6 +295,13 @@ func setAmbient(on bool) {
 	features.EnableAmbientStatus = on
 	features.EnableIngressWaypointRouting = on
 	features.EnableAmbientWaypointMultiNetwork = on
+}
+
+func epPort(e epDesc, servicePort int) uint32 {
+	if e.TargetPort != 0 {
+		return uint32(e.TargetPort)
+	}
+	return uint32(servicePort)
 }
 
 // snapshot is one full state-of-the-world push for one proxy.
